@@ -73,7 +73,39 @@ def RB(c, fb, view=None):
     return z3.And(0 <= p, p <= rpos, rpos <= slen(rx), c.eq(joined(c, fb, view), slc(rx, p, rpos)))
 
 
+_fb_cache = {}
+
+
+def _ids(x):
+    if isinstance(x, OptV):
+        return ("opt", x.isnone.get_id() if z3.is_expr(x.isnone) else x.isnone) + (_ids(x.val),)
+    if isinstance(x, SV):
+        return (x.tag, x.t.get_id())
+    if isinstance(x, tuple):
+        return tuple(_ids(y) for y in x)
+    if isinstance(x, Ref):
+        return ("ref", x.id)
+    return ("py", repr(x))
+
+
 def FB(c, fb, view=None):
+    v = view or c
+    rb = v.cell(v.getf(fb, "recv_buffer")).data
+    key = (c.mode, _ids(v.ghost["rx"]), _ids(v.ghost["fstart"]), _ids(v.ghost["rpos"]),
+           ("rope", rb.joined.get_id()) if isinstance(rb, Rope) else tuple(_ids(x) for x in rb),
+           _ids(v.getf(fb, "header")), _ids(v.getf(fb, "length")), _ids(v.getf(fb, "mask_value")))
+    hit = _fb_cache.get(key)
+    if hit is not None:
+        return hit[0]
+    r = _FB(c, fb, view)
+    if len(_fb_cache) > 20000:
+        _fb_cache.clear()
+    # keep the terms alive so that ids are not reused
+    _fb_cache[key] = (r, v.ghost["rx"], v.ghost["fstart"], v.ghost["rpos"], rb, v.getf(fb, "header"), v.getf(fb, "length"), v.getf(fb, "mask_value"))
+    return r
+
+
+def _FB(c, fb, view=None):
     """Representation invariant of frame_buffer against the ghost stream (DESIGN 5 C02), with ghost fstart.
     Stage fields may be lazily optional values, so the invariant is stated with implications on their None-ness."""
     v = view or c
